@@ -433,8 +433,7 @@ SUBS = [Sub('history', cases, check, {'quick': 1500, 'thorough': 12000}, weight=
 
 def _upstream_c01(case, v):
     prog = case.get('prog', case)
-    ops = {n['op'] for n in prog['nodes']}
-    return 'diagonalize' in ops and bool(ops & {'inflate', 'take', 'concat', 'stack'})
+    return genexpr.known_loop(prog)
 
 
 TRIGGERS = {'upstream-C01-inflate-diagonalize': _upstream_c01}
